@@ -90,6 +90,7 @@ func (c *HeartbeatManager) StartHeartbeat() error {
 
 	// stop an already running heartbeat
 	c.StopHeartbeat()
+	verifYield("StartHeartbeat.stopped")
 
 	c.stopHeartbeatC = make(chan struct{})
 
@@ -102,6 +103,7 @@ func (c *HeartbeatManager) StartHeartbeat() error {
 // Note: No active subscribers will get any further notifications!
 func (c *HeartbeatManager) StopHeartbeat() {
 	if c.IsHeartbeatRunning() {
+		verifYield("StopHeartbeat.checked")
 		close(c.stopHeartbeatC)
 	}
 }
